@@ -44,13 +44,14 @@ F_cr2 == { Cfg(<< Rcr(1), Rcr(2), W1 >>, 2, 2, 0) }
 F_recycle == { Cfg(<< Rrecycle(1, 2), Rcr(3), W1 >>, 2, 3, 0) }
 F_relock == { Cfg(<< Rtl \o Rtl, W2 >>, 1, 0, 0), Cfg(<< Racc(1) \o Racc(1), W2 >>, 1, 1, 1) }
 
-\* --- weak-memory families (Stale = TRUE): 2 readers / 2 accessors + 1 writer, 2 objects
-Cfg_wm_q == F_tl1 \cup F_acc1 \cup F_nest \cup F_move \cup F_cr1
-Cfg_wm == Cfg_wm_q \cup F_tl2 \cup F_acc2 \cup F_tl1w2 \cup F_acc1w2 \cup F_relock
+\* --- weak-memory families (Stale = TRUE)
+Cfg_wm_q == F_tl1w2 \cup F_acc1w2 \cup F_nest \cup F_move \cup F_cr1
+Cfg_wm == Cfg_wm_q \cup F_tl2 \cup F_acc2 \cup F_relock \cup F_nestw2
 \* --- interleaving families (Stale = FALSE)
-Cfg_sc_q == F_tl2 \cup F_acc1w2 \cup F_nestw2 \cup F_move \cup F_cr1
-Cfg_sc == Cfg_sc_q \cup F_tl2w2 \cup F_acc2w2 \cup F_cr2 \cup F_nest2 \cup F_movew2 \cup F_recycle \cup F_relock
-Cfg_dbg == F_relock
+Cfg_sc_q == F_tl1w2 \cup F_acc1w2 \cup F_nestw2 \cup F_move \cup F_cr1
+Cfg_sc == Cfg_sc_q \cup F_tl2 \cup F_acc2 \cup F_cr2 \cup F_nest2 \cup F_movew2 \cup F_recycle \cup F_relock
+\* --- largest bounds of DESIGN 4/C09 (2 readers + 1 writer, 2 objects); run by hand, see the report
+Cfg_big == F_tl2w2 \cup F_acc2w2
 
 Next == \/ \E t \in Thr : Step(t, MOf)
         \/ (AllDone /\ UNCHANGED vars)
